@@ -362,12 +362,15 @@ def build_model_runner(timeout=900):
         for f in ("driver.ml", "sexp.ml"):
             with open(os.path.join(d, f), "w") as g:
                 g.write(open(os.path.join(VERIF, "ocaml", f)).read())
-        try:
-            os.remove(os.path.join(d, "model.mli"))
-        except OSError:
-            pass
-        rc, out, err = sh("ocamlfind ocamlopt -O2 -w -a -package str sexp.ml model.ml driver.ml -o model_runner 2>&1 || "
-                          "ocamlfind ocamlopt -w -a sexp.ml model.ml driver.ml -o model_runner",
+        extra = sorted(f for f in os.listdir(d) if re.match(r"model_[a-z0-9]+\.ml$", f))
+        for f in ["model.mli"] + [e + "i" for e in extra]:
+            try:
+                os.remove(os.path.join(d, f))
+            except OSError:
+                pass
+        mls = " ".join(["sexp.ml", "model.ml"] + extra + ["driver.ml"])
+        rc, out, err = sh("ocamlfind ocamlopt -O2 -w -a -package str %s -o model_runner 2>&1 || "
+                          "ocamlfind ocamlopt -w -a %s -o model_runner" % (mls, mls),
                           cwd=d, timeout=timeout)
         if rc != 0:
             return False, out + err
